@@ -26,7 +26,9 @@ other mechanisms and other parts of the behaviour. Each change was confirmed
 in a fresh scratch worktree (`tools/mutant_verify.sh`: clean build passes the
 demonstration; patched build compiles, fails it and passes `make tests`), then
 applied to /repo, checked with the quick tier (`tools/mutant_check.sh`) and
-reverted. %d changes are kept (`seeded/<id>/{patch.diff, demo.sh,
+reverted (fifth round: applied in a scratch worktree and checked through
+`VERIF_REPO`, `tools/mutant_check_wt.sh`, while a background job was
+rebuilding from /repo). %d changes are kept (`seeded/<id>/{patch.diff, demo.sh,
 meta.json}`): %d are caught by the quick tier now - %d of them only after the
 strengthening noted in the last column - and %d are not caught, each with the
 reason in the table. %d further changes were discarded because a repair made
